@@ -344,7 +344,12 @@ static std::string exec_case(const Args &a) {
         const std::string op = a.get("op");
         long n = 0;
         for (long k = 0; k <= n && k <= 40; ++k) {
-            for (const auto &pre : ops) apply_guarded(pool, pre);
+            int step = 0;
+            for (const auto &pre : ops) {
+                std::string exc = apply_guarded(pool, pre);
+                // the prefix is reported step by step once (values of derived objects are taken from here by the driver)
+                if (k == 0) { ++step; out += "s" + std::to_string(step) + "=" + (exc.empty() ? "" : "!" + exc + "|") + pool.snapshot() + " "; }
+            }
             std::string presnap = pool.snapshot();
             if (k == 0) out += "pre=" + presnap + " ";
             g_arm_k = k;
@@ -466,7 +471,44 @@ static void gen(Emitter &em, const Options &opt) {
     uint64_t k = 0;
     auto in_slice = [&]() { return (int)(k++ % opt.nslices) == opt.slice; };
     bool c18 = opt.prop == "C18";
-    if (opt.prop == "C19") return;   // fault cases are enumerated by tools/check.py through `nallocs` + `sfault` (see registry)
+    if (opt.prop == "C19") {
+        // every allocating string-level operation x target size class x argument size class; the harness itself enumerates
+        // the fault positions k = 1..n (n = allocations of the clean run) for each line
+        const size_t classes[] = {0, 1, L - 1, L, L + 1, 3 * L};
+        for (size_t c0 : classes) for (size_t c1 : classes) {
+            if (!thorough && (c0 == 1 || c1 == 1)) continue;
+            Rng r2(c0 * 53 + c1 * 5 + 1);
+            std::string t0 = hex_bytes(rand_text(r2, c0)), t1 = hex_bytes(rand_text(r2, c1));
+            std::string longv = hex_bytes(rand_text(r2, 2 * L + 3)), shortv = hex_bytes(rand_text(r2, 5));
+            std::string pro = "N0:" + t0 + ";N1:" + t1;
+            std::vector<std::string> ops = {"N2:" + longv, "N2:" + shortv, "D2", "C2,0", "M2,0", "c0,1", "c0,0", "c1,0", "m0,1", "R0", "X0", "P0,1", "P0,0", "p0,1",
+                "a0,8364", "a0,128512", "e0,65", "a0,1114112", "S0,c:" + longv, "S0,s:" + longv + "ff", "S0,a:" + longv, "S0,c:" + shortv, "S0,c:" + longv + "c3", "S0,c:c3",
+                "T0,c,16:00410042d83dde00", "T0,c,16:d800", "E0,c,32:000000410001f600", "E0,s,32:00110000",
+                "K2,0,substr,1,40", "K2,0,whole", "K2,0,left,20", "K2,0,right,3", "K2,0,plus,1", "K2,0,plusc,1", "K2,0,cplus,1", "K2,0,plusch,8364", "K2,0,plusch,1114112",
+                "K2,0,repl,1,1", "K2,0,replc,1,0", "K2,0,bf,1,0", "K2,0,al,1,1", "K2,0,bfc,45", "K2,0,trimset,1", "K2,0,fill,40,66", "K2,0,fromint,-123456789",
+                "K2,0,fmtint,-7,255", "K2,0,fmtwith,1", "K2,0,ssout,1", "K2,1,fromutf8c",
+                "K8,0,toutf8", "K8,0,tolatin1", "K8,0,tolatin1x", "K8,0,hexdec", "K8,0,b64dec",
+                "V0,splitc,45,-1:2,3,4", "V0,splitc,32,1:2,3,", "V0,splits,1,-1:2,3,4", "V0,splitz,1,2:2,3,4", "V0,tok,0,0:2,3,4",
+                "Q0,to16", "Q0,to32", "Q0,tow", "Q0,tostd", "Q0,ssw", "Q0,fmtarg,5", "Q0,latin", "Q0,toint", "Q0,find,1", "Q0,hash"};
+            for (const char *n : KOPS1) if (std::string(n) != "ostream") ops.push_back(std::string("K2,0,") + n);
+            for (const auto &op : ops) if (in_slice()) em.emit("sfault ops=" + pro + " op=" + op);
+            // operations on the char_buffer slot: set / assign / construct from an lvalue and an rvalue buffer
+            for (const std::string &bv : {longv, shortv, longv + "ff"})
+                for (const char *op : {"b0,c", "b0,s", "b0,a", "B0,c", "B0,s", "h0", "H0", "G2,c", "G2,s", "g2,c", "g2,a"})
+                    if (in_slice()) em.emit("sfault ops=" + pro + ";U8:" + bv + " op=" + op);
+            if (in_slice()) em.emit("sfault ops=" + pro + " op=U8:" + longv);
+        }
+        // random prefixes
+        int nrand = thorough ? 6000 : 600;
+        for (int i = 0; i < nrand; ++i) {
+            G g; std::string ops; int len = 1 + (int)rng.below(12);
+            for (int j = 0; j < len; ++j) { std::string op = rand_op(rng, g, false); if (j) ops += ";"; ops += op; }
+            std::string last;
+            do last = rand_op(rng, g, i % 2 == 0); while (last.find(';') != std::string::npos || last.find("ostream") != std::string::npos || last.find("wos") != std::string::npos);
+            if (in_slice()) em.emit("sfault ops=" + ops + " op=" + last);
+        }
+        return;
+    }
     // (1) directed: every const / query / vector operation on every size class of source, with the "result equals source"
     //     and self-referential variants, followed by mutation and destruction of source and result in both orders
     if (!c18) {
